@@ -51,9 +51,9 @@ func churnCase(c *h.Case) {
 	defer forgetRegs(pfx)
 	defer forgetPhases(pfx)
 	nFresh := 30 + rng.Intn(25)
-	budget := time.Duration(run.N(5, 20)) * time.Second
+	budget := time.Duration(run.N(4, 20)) * time.Second
 	if real {
-		budget = time.Duration(run.N(3, 12)) * time.Second
+		budget = time.Duration(run.N(2, 12)) * time.Second
 	}
 	c.Data["kind"], c.Data["server"], c.Data["entries_per_round"], c.Data["budget"] = "churn", map[bool]string{false: "scripted", true: "real frps"}[real], nFresh, budget.String()
 
